@@ -64,6 +64,11 @@ structure Env (S T π : Type) where
   ops : Prio π
   /-- `self.filter.accept` (always `true` when no filter is installed) -/
   filter : Prog → Bool
+  /-- `true`: the code as it is — `__add_successors__` does not push a successor that is in
+      `deleted` (heap_search.py:222-225), so its own successors are never generated (finding
+      C12-F4); `false`: the code after the proposed fix C12-F4 (deleted programs are pushed and
+      skipped when popped, where their successors are added) -/
+  dropDeleted : Bool := true
 
 /-- the tables of `HSEnumerator` (heap_search.py:62-83) + the memo table of `compute_priority` -/
 structure St (S T π : Type) where
@@ -217,7 +222,7 @@ mutual
             | none => s1
             | some q =>
               let np : Prog := .node F (args.set i q)
-              if (s1.seenOf nt).contains np || s1.deleted.contains np then s1
+              if (s1.seenOf nt).contains np || (E.dropDeleted && s1.deleted.contains np) then s1
               else pushNew E s1 nt np
           if i + 1 < argsLen then
             match deriveAll E.G ai info s2 with
